@@ -76,6 +76,20 @@ impl SupplyBound for DefaultInverse {
     }
 }
 
+/// Like [DefaultInverse], and it logs every interval length `provided_service` is asked about: the iteration that
+/// the trait's default `service_time` runs, observed without a hook.
+pub struct LoggingInverse {
+    pub inner: SB,
+    pub log: std::cell::RefCell<Vec<u64>>,
+}
+
+impl SupplyBound for LoggingInverse {
+    fn provided_service(&self, delta: Duration) -> Service {
+        self.log.borrow_mut().push(u64::from(delta));
+        self.inner.provided_service(delta)
+    }
+}
+
 /// A user-defined supply given by a table of increments (a staircase that is
 /// repeated periodically): used for C08 ("user-defined via the default
 /// service_time").
